@@ -136,7 +136,6 @@ type cbRun struct {
 	handles []burstHandle
 	lastCB  *cbJob
 	step    int
-	dumpBuf []byte
 	// updates dispatched during the current park of a delete: did one aim at a leaf the delete had already removed
 	removedUpdateInPark *cbJob
 }
@@ -239,6 +238,9 @@ func (r *cbRun) onCallback(job *cbJob, val interface{}, path []string) {
 	}
 }
 
+// cbDumpBuf receives the goroutine dumps (cases run one after the other).
+var cbDumpBuf = make([]byte, 1<<21)
+
 var cbGoroutine = regexp.MustCompile(`(?m)^goroutine (\d+) \[([^\],]*)`)
 
 func lockWait(state string) bool {
@@ -275,10 +277,7 @@ func (r *cbRun) settle() cbQuiet {
 		}
 		// The flags read above stay valid (only this goroutine starts or releases a
 		// thread); the dump is taken with the world stopped.
-		if r.dumpBuf == nil {
-			r.dumpBuf = make([]byte, 1<<20)
-		}
-		dump := string(r.dumpBuf[:runtime.Stack(r.dumpBuf, true)])
+		dump := string(cbDumpBuf[:runtime.Stack(cbDumpBuf, true)])
 		states := map[string]string{}
 		for _, m := range cbGoroutine.FindAllStringSubmatch(dump, -1) {
 			states[m[1]] = m[2]
